@@ -9,6 +9,11 @@ def nontrivial(req, obs):
     if f[0] == "C18.cross":
         # accepted by at least the HLSL flavours, with at least one resource and one pipeline
         return len(f) > 5 and "dx=ok" in f[5] and f[3] != "" and f[4] != ""
+    if f[0] == "C18.annot":
+        return "{dx:" in obs
+    if f[0] == "C18.simplify":
+        # at least one cbuffer block in the program
+        return " cbuffer " in req
     if f[0] == "C18.pp":
         # at least one macro is defined or tested and something comes out
         return ("D " in f[3] or "IF" in f[3]) and obs.startswith("ok:") and len(obs) > 3
@@ -72,7 +77,7 @@ def search(ctx):
 
 SPEC = {
     "id": "C18",
-    "gens": ["SlotTables", "CompileTables", "TargetTables"],
+    "gens": ["SlotTables", "CompileTables", "TargetTables", "CbufferTables", "PipelineTables", "HlslGenTables", "HlslIntrinsicTables"],
     "lean_modules": ["RsslVerif.Thm.C18"],
     "theorems": [T + n for n in [
         "unmentioned_define_irrelevant", "target_dependent_names", "frontend_target_independent",
@@ -81,7 +86,11 @@ SPEC = {
         "build_shape_as_modelled", "dx_vk_same_stage_reports", "all_targets_same_stage_kinds_sizes",
         "dx_vk_declarations_differ_only_in_annotations_partial", "dx_register_vk_binding",
         "descriptor_tables_equal", "kind_count_from_declaration", "binding_kinds_counts_shared", "dx_vk_bindings_shared",
-        "binding_names_kinds_counts_shared_partial", "binding_names_not_shared"]],
+        "binding_names_kinds_counts_shared_partial", "binding_names_not_shared",
+        "simplify_cbuffers_as_modelled", "msl_reflects_simplified_module", "kinds_counts_shared_through_simplify",
+        "bindings_shared_through_simplify_partial", "cbuffer_block_one_binding_everywhere",
+        "hlsl_target_sites_as_modelled", "hlsl_exports_differ_only_in_annotations", "dx_vk_differ_only_in_annotations",
+        "vk_vkba_differ_only_where_addresses_are", "dx_vk_differ_only_in_annotations_c01", "dx_has_no_vk_annotations"]],
     "harness": "c18",
     "nontrivial": nontrivial,
     "finding_key": finding_key,
@@ -92,7 +101,10 @@ SPEC = {
             "explicit pipeline state, include guards, object-like macros, #if __HLSL_VERSION, dead garbage in #if 0, unbounded "
             "array, resources named like HLSL/MSL reserved words, declarations in an included file, API-level defines, a struct "
             "whose layouts differ between HLSL and Metal; rejected: 20 injected lexer / preprocessor / parser / type / "
-            "pipeline errors at the top, middle and end of the file), none mentioning RSSL_TARGET_*, each compiled for "
+            "pipeline errors at the top, middle and end of the file; layout validation requested), plus the self-contained wide "
+            "programs of harness/src/c17/wgen.rs in 12 option combinations (21 resource kinds, typedef'd / unsized / bindless "
+            "arrays, cbuffers with 0-5 members, static sampler properties, per-primitive mesh / pixel shapes, bodies calling "
+            "methods on every resource kind, inactive RSSL_TARGET_* text, 25 odd edits), none testing RSSL_TARGET_*, each compiled for "
             "{dx, vk, vk+buffer-address, msl} and compared by an oracle written in the property's words; plus generated "
             "object-like-macro / conditional-directive programs run through the real preprocessor with each target's observed "
             "define list and compared with the Lean macro model (a quarter of them mention RSSL_TARGET_* on purpose); "
@@ -114,12 +126,24 @@ SPEC = {
                   "declared name is reserved in neither or in both target languages (each exporter reports its emitted name) - "
                   "the full statement is false on the current code and its negation is proved with three witnesses "
                   "(`binding_names_not_shared`, replayed as the known-finding class binding-name-reserved-in-one-target); "
-                  "DirectX and Vulkan agree on names unconditionally (`dx_vk_bindings_shared`). Not modelled: function-like macros / ## / "
+                  "DirectX and Vulkan agree on names unconditionally (`dx_vk_bindings_shared`). "
+                  "(5) Metal's cbuffer rewrite (simplify_cbuffers) is modelled on the root-definition list and proved, for any "
+                  "list and any members (none included), to leave exactly what the thin reflection model assumes: bind -> rewrite "
+                  "-> analyse gives one ConstantBuffer binding per block, and kinds / counts agree with the HLSL flavours "
+                  "(names: same partial hypothesis); the pass's text is an obligation. (6) A module-level model of the HLSL "
+                  "exporter with every inventoried reader of the target-derived flags at its place is proved to produce, for "
+                  "any module, exports that are equal after erasing annotations for DirectX vs Vulkan (unconditionally) and "
+                  "for Vulkan with vs without buffer addresses wherever no address is declared or used; the function generator "
+                  "is a parameter that does not see the target (C01's genFunc is cited as the instance). "
+                  "Not modelled: function-like macros / ## / "
                   "#include (C12's model; exercised by the harness variants include / pp-macros / ctl-concat).",
     "trusted_base": [
         "Lean 4.33 kernel; axioms propext / Classical.choice / Quot.sound only",
         "tools/gens/c18.py: regex facts about compile()/build_pipeline, the define list, the inventories of target / flag "
         "uses, the two analyse_bindings tables; tools/translate.py SlotTables (binding_params) and tools/gens/c17.py (MSL entry names)",
+        "tools/gens/c18.py CbufferTables: exact text of simplify_cbuffers' first half, call order in export_to_msl / "
+        "build_pipeline, the per-primitive sites of the HLSL generator; Model/SimplifyCbuffers.lean and Model/HlslModule.lean "
+        "are hand-written mirrors tied by the C18.simplify and C18.annot correspondence runs",
         "Model/MacroLite.lean is a hand-written mirror of preprocess.rs for object-like macros and conditionals, tied by the "
         "C18.pp correspondence run; Model/Targets.lean report/hasSlot mirror analyse_bindings + the slot decision of "
         "assign_api_bindings, tied by the C18.cross correspondence run",
